@@ -49,7 +49,29 @@ def canon_ids(txt):
 
 
 class _Injected(OSError):
-    pass
+    vt_injected = True
+
+
+class _InjectedInterrupt(KeyboardInterrupt):
+    vt_injected = True
+
+
+class _InjectedExit(SystemExit):
+    vt_injected = True
+
+
+class _InjectedGenExit(GeneratorExit):
+    vt_injected = True
+
+
+# the kinds of failure that can interrupt an export (GenFile!FailureKinds)
+FAILURES = {"OSError": lambda: _Injected(errno.EIO, "injected I/O failure (C31 check)"),
+            "KeyboardInterrupt": lambda: _InjectedInterrupt("injected interrupt (C31 check)"),
+            "SystemExit": lambda: _InjectedExit(1),
+            "GeneratorExit": lambda: _InjectedGenExit("injected (C31 check)")}
+# what the target path is before the run: [content seen through the path, file behind the link or "none"]
+TARGET_KINDS = {"absent": ("absent", "none"), "old": ("old", "none"),
+                "link-old": ("old", "old"), "link-dangling": ("absent", "absent")}
 
 
 class _Proxy:
@@ -93,8 +115,8 @@ class _Proxy:
 class _IO:
     """Replacement for `open` in the writing modules during one generator run."""
 
-    def __init__(self, target, crash_at):
-        self.target, self.crash_at = os.path.abspath(target) if target else None, crash_at
+    def __init__(self, target, crash_at, kind="OSError"):
+        self.target, self.crash_at, self.kind = os.path.abspath(target) if target else None, crash_at, kind
         self.events, self.count, self.crashed = [], 0, False
         self.opened = []
 
@@ -105,8 +127,8 @@ class _IO:
         self.count += 1
         if self.crash_at is not None and k == self.crash_at:
             self.crashed = True
-            self.events.append(dict(name="Crash"))
-            raise _Injected(errno.EIO, "injected I/O failure (C31 check)")
+            self.events.append(dict(name="Crash", kind=self.kind))
+            raise FAILURES[self.kind]()
         self.events.append(dict(name=name, **fields))
 
     def open(self, path, mode="r", *a, **kw):
@@ -143,17 +165,20 @@ class Subject:
             self.metamodel, self.model = None, mm
             self.desc = gens.metamodel_generate_dot if gen == "mm-dot" else gens.metamodel_generate_plantuml
         self.outdir = os.path.join(workdir, f"out-{gen}-{gname}")
+        self.destdir = os.path.join(workdir, f"dest-{gen}-{gname}")      # where a symlinked target points to
+        self.dest = os.path.join(self.destdir, "real-output")
         self.target = None
         self.complete = None
         self.n = 0
         self.nops = 0
         self.blind = False
+        self.linked = False
 
     # ---- one run of the real generator
-    def call(self, overwrite, crash_at=None):
+    def call(self, overwrite, crash_at=None, kind="OSError"):
         import textx.export as export
         import textx.generators as gens
-        io = _IO(self.target, crash_at)
+        io = _IO(self.target, crash_at, kind)
         mods = [export, gens]
         saved = [m.__dict__.get("open", None) for m in mods]
         for m in mods:
@@ -176,21 +201,35 @@ class Subject:
         return io, raised
 
     def reset_out(self, pre):
-        shutil.rmtree(self.outdir, ignore_errors=True)
-        os.makedirs(self.outdir)
+        for d in (self.outdir, self.destdir):
+            shutil.rmtree(d, ignore_errors=True)
+            os.makedirs(d)
         if pre == "old":
             with open(self.target, "w") as f:
                 f.write(OLD)
+        elif pre in ("link-old", "link-dangling"):
+            if pre == "link-old":
+                with open(self.dest, "w") as f:
+                    f.write(OLD)
+            os.symlink(self.dest, self.target)
+        elif pre != "absent":
+            raise tlc.MachineryError(f"unknown target kind {pre}")
+        self.linked = pre.startswith("link-")
+
+    def _content(self, path):
+        if not os.path.exists(path):            # follows links, like gen_file does
+            return "absent"
+        with open(path, encoding="utf-8", errors="replace") as f:
+            txt = f.read()
+        return "old" if txt == OLD else "complete" if canon_ids(txt) == self.complete else "partial"
 
     def look(self):
-        names = sorted(os.listdir(self.outdir))
+        """(content seen through the target path, other entries in the output directory,
+        content of the file behind the link / "none" if the target was not set up as a link)."""
         tname = os.path.basename(self.target)
-        others = len([x for x in names if x != tname])
-        if tname not in names:
-            return "absent", others
-        with open(self.target, encoding="utf-8", errors="replace") as f:
-            txt = f.read()
-        return ("old" if txt == OLD else "complete" if canon_ids(txt) == self.complete else "partial"), others
+        others = len([x for x in os.listdir(self.outdir) if x != tname])
+        extra = len([x for x in os.listdir(self.destdir) if x != os.path.basename(self.dest)])
+        return self._content(self.target), others + extra, (self._content(self.dest) if self.linked else "none")
 
     # ---- calibration: a clean run tells the target, the complete content and the I/O calls
     def calibrate(self):
@@ -221,20 +260,21 @@ class Subject:
         return ev
 
     # ---- one scenario -> one trace
-    def scenario(self, overwrite, pre, crash_at):
+    def scenario(self, overwrite, pre, crash_at, kind="OSError"):
         self.reset_out(pre)
-        events = [dict(name="Start", ow=bool(overwrite), pre=pre, n=self.n)]
+        seen, behind = TARGET_KINDS[pre]
+        events = [dict(name="Start", ow=bool(overwrite), pre=seen, dest=behind, n=self.n)]
         for rerun in (False, True):
-            io, raised = self.call(overwrite if not rerun else False, None if rerun else crash_at)
-            if raised is not None and not isinstance(raised, (Exception,)):
-                raise raised
+            io, raised = self.call(overwrite if not rerun else False, None if rerun else crash_at, kind)
+            if raised is not None and not isinstance(raised, Exception) and not getattr(raised, "vt_injected", False):
+                raise raised                # a real interrupt of the harness, not an observation
             evs = io.events
             if not self.blind and not any(e["name"] in ("Open", "Crash") for e in evs):
                 evs = [dict(name="Skip")]
             events += evs
             events.append(dict(name="End", raised=raised is not None))
-            cls, others = self.look()
-            events.append(dict(name="Observe", cls=cls, others=others))
+            cls, others, dcls = self.look()
+            events.append(dict(name="Observe", cls=cls, others=others, dest=dcls))
             if not rerun:
                 events.append(dict(name="Rerun"))
         return dict(blind=self.blind, events=events)
